@@ -430,6 +430,55 @@ def dl_grad(m, ins, tcol, shape):
     return g.apply_rows(list(ins) + [tgt])[0]
 
 
+# ---- ghost model of one torch module's hook dictionaries (C07): sizes of the three dictionaries and, of
+# those, how many were put there by deep_lift_shap (the *_hook functions of tangermeme.deep_lift_shap)
+_HOOK_DICTS = {'register_forward_hook': ('nf', 'dls_f', '_f_hook'), 'register_forward_pre_hook': ('np', 'dls_p', '_fp_hook'),
+               'register_full_backward_hook': ('nb', 'dls_b', '_b_hook')}
+
+
+def _register_hook_method(which):
+    size, dls, hookname = _HOOK_DICTS[which]
+
+    def reg(fr, mod, fn):
+        g = mod.attrs['ghost']
+        is_dls = getattr(fn, 'qualname', '') == 'tangermeme.deep_lift_shap.' + hookname
+        g[size] = g[size] + 1
+        if is_dls:
+            g[dls] = g[dls] + 1
+        fr.ctx.events.append(('hook_registered', which, is_dls))
+        return Opaque('handle', 'hook_handle', {'module': mod, 'size': size, 'dls': dls if is_dls else None, 'live': True})
+    return reg
+
+
+for _w in _HOOK_DICTS:
+    L.method('nn_module.' + _w)(_register_hook_method(_w))
+
+
+@L.method('hook_handle.remove')
+def _handle_remove(fr, hd):
+    if hd.attrs['live']:
+        g = hd.attrs['module'].attrs['ghost']
+        g[hd.attrs['size']] = g[hd.attrs['size']] - 1
+        if hd.attrs['dls']:
+            g[hd.attrs['dls']] = g[hd.attrs['dls']] - 1
+        hd.attrs['live'] = False
+    return None
+
+
+@L.lib('getattr:nn_module')
+def _nn_module_getattr(fr, mod, a):
+    g = mod.attrs.get('ghost')
+    if g is not None and a in ('_backward_hooks', '_forward_hooks', '_forward_pre_hooks'):
+        key = {'_backward_hooks': 'nb', '_forward_hooks': 'nf', '_forward_pre_hooks': 'np'}[a]
+        return Opaque(a, 'hookdict', {'module': mod, 'key': key})
+    return NotImplemented
+
+
+@L.lib('len:hookdict')
+def _len_hookdict(fr, d):
+    return d.attrs['module'].attrs['ghost'][d.attrs['key']]
+
+
 @L.method('model.parameters')
 def _model_parameters(fr, m):
     return Opaque('params', 'param_iter', {'model': m})
